@@ -55,6 +55,18 @@ func c18Cell(rng *rand.Rand) string {
 		}
 		return sb.String()
 	}
+	if rng.Intn(10) == 0 {
+		// short cells around one metacharacter with runes whose case folding is special (K/k/Kelvin, s/ſ, ı/I/i/İ, Å/Angstrom, ω/Ω/Ohm, ß/ẞ, θ/ϴ)
+		fold := []rune("kKKsSſiIıİåÅÅωΩΩßẞθϴabT")
+		for i, m := 0, 1+rng.Intn(4); i < m; i++ {
+			sb.WriteRune(fold[rng.Intn(len(fold))])
+		}
+		sb.WriteRune([]rune(".$+?(|*")[rng.Intn(7)])
+		for i, m := 0, rng.Intn(4); i < m; i++ {
+			sb.WriteRune(fold[rng.Intn(len(fold))])
+		}
+		return sb.String()
+	}
 	// metacharacters and % are rare inside cells
 	for i := 0; i < n; i++ {
 		r := c18Runes[rng.Intn(len(c18Runes))]
@@ -115,6 +127,10 @@ func c18Pattern(rng *rand.Rand, cells []string) string {
 		lit = strings.ToUpper(lit)
 	case 2:
 		lit = strings.ToLower(lit)
+	}
+	if strings.ContainsAny(lit, ".*+?()[]{}|^$\\") && rng.Intn(2) == 0 {
+		// the literal with every metacharacter escaped: still a regular expression by the rule of the property
+		lit = regexp.QuoteMeta(lit)
 	}
 	switch rng.Intn(4) {
 	case 0:
